@@ -122,7 +122,10 @@ def run_driver(requests, timeout=3000):
                        text=True, timeout=timeout)
     if p.returncode != 0:
         raise HarnessError("driver exited %d: %s" % (p.returncode, p.stderr[-500:]))
-    lines = p.stdout.splitlines()
+    # not splitlines(): answers may carry U+2028, U+0085 ... raw inside JSON strings
+    lines = p.stdout.split("\n")
+    if lines and lines[-1] == "":
+        lines.pop()
     if len(lines) != len(requests):
         raise HarnessError("driver answered %d lines for %d requests" % (len(lines), len(requests)))
     return [json.loads(l) for l in lines]
